@@ -163,13 +163,40 @@ def cards(tier):
                 out.append(("%s%s|BD=%d" % (fam[0], tag, i), cfg, True))
     for l, cfg, pc in four.members(tier):
         out.append((l, cfg, False))
+    # other decay models (couplings per helicity instead of per (l,s), parity-related helicity couplings, CP-violating
+    # couplings, (l,s)-split line shapes) on the cards with all three chains
+    mem = dict(F.members(tier))
+    fams = ["vector_toy", "fermion_weak", "fermion_pair", "spin2_top", "scalar"]
+    dms = ["helicity_full", "helicity_full-bf", "helicity_parity", "gls-bf", "gls-cpv", "BWR_LS"]
+    for i, fam in enumerate(fams):
+        for j, dm in enumerate(dms):
+            if tier == "quick" and (i + j) % 2:
+                continue
+            out.append(("%s|BC+BD+CD|%s" % (fam, dm), with_decay_model(mem["%s|BC+BD+CD" % fam], dm), False))
     return out
+
+
+def with_decay_model(cfg0, dm):
+    import copy
+
+    cfg = copy.deepcopy(cfg0)
+    if dm == "BWR_LS":
+        for r in cfg["particle"]:
+            if r.startswith("R_"):
+                cfg["particle"][r]["model"] = "BWR_LS"
+        return cfg
+    for k, v in cfg["decay"].items():
+        if k == "A":
+            cfg["decay"][k] = [d[:2] + [dict(d[2] if len(d) > 2 else {}, model=dm)] for d in v]
+        elif not isinstance(v[0], list):
+            cfg["decay"][k] = [v[:2] + [{"model": dm}]]
+    return cfg
 
 
 def run(tier, seed, only=None):
     rep = Report(
         PID, tier, seed, "exploration",
-        rule="cards (7 three-body spin families x chain subsets x resonance spin-parities x second resonance + 3 identical-particle families + 5 four-body spin sets x combinations of 4 topologies) x "
+        rule="cards (7 three-body spin families x chain subsets x resonance spin-parities x second resonance + 3 identical-particle families + 5 four-body spin sets x combinations of 4 topologies + 5 families x 6 alternative decay models) x "
              "event lattice (Dalitz lattice / lattice of sequential two-body decays, 2 generic orientations) x G "
              "(cube rotations, Euler rotations, boosts beta in {0.1,0.5,0.9,0.99} x 8 directions, rotation o boost both orders, inversion, exchange of identical particles); "
              "evaluations = transformed events; distinct = card with strictly positive density on the lattice",
